@@ -1,0 +1,11 @@
+// Copyright 2019 The Wuffs Authors.
+//
+// SPDX-License-Identifier: Apache-2.0 OR MIT
+
+//go:build !verif
+// +build !verif
+
+package rac
+
+// verifSched is a no-op unless built with the "verif" tag.
+func verifSched(site int) {}
